@@ -93,6 +93,23 @@ Normal(g) ==
                  [a \in 1..nf |-> QCanon(BContrib(g, g.edges[n], packs[n], free[a], Unit(Len(packs[n].err), AtomSlot(packs[n].err))))]],
        chi2 |-> [n \in 1..E |-> Chi2Form(packs[n].err, g.edges[n].W)],
        errs |-> [n \in 1..E |-> EOut(packs[n].err)],
+       ws |-> [n \in 1..E |-> EdgeW(g, g.edges[n])],
+       jac |-> [n \in 1..E |-> JOut(packs[n].err)] ]
+
+\* gradient and chi^2 only (large graphs: stationarity of a designed optimum does not need H)
+GradOnly(g) ==
+  LET E == Len(g.edges)
+      packs == TLCEval([n \in 1..E |-> EdgePack(g, g.edges[n])])
+      free == FreeIdx(g)
+      nf == Len(free)
+      atomEdges == SelectSeq([n \in 1..E |-> n], LAMBDA n : packs[n].atom)
+  IN [ n |-> NTot(g), free |-> free,
+       b0 |-> [a \in 1..nf |-> QCanon(QSumF([n \in 1..E |-> BContrib(g, g.edges[n], packs[n], free[a], packs[n].erat)], E))],
+       atoms |-> [k \in 1..Len(atomEdges) |-> packs[atomEdges[k]].err[AtomSlot(packs[atomEdges[k]].err)].ang],
+       B1 |-> [k \in 1..Len(atomEdges) |-> LET n == atomEdges[k] IN
+                 [a \in 1..nf |-> QCanon(BContrib(g, g.edges[n], packs[n], free[a], Unit(Len(packs[n].err), AtomSlot(packs[n].err))))]],
+       chi2 |-> [n \in 1..E |-> Chi2Form(packs[n].err, g.edges[n].W)],
+       errs |-> [n \in 1..E |-> EOut(packs[n].err)],
        ws |-> [n \in 1..E |-> EdgeW(g, g.edges[n])] ]
 
 \* ---------- change of world frame ----------
